@@ -297,5 +297,72 @@ def sinks():
         're:^@_ZNSt9basic_iosIcSt11char_traitsIcEE4initE': none, 're:^@_ZNSt9basic_iosIcSt11char_traitsIcEE5clearE': none,
     }
 
+# ---------------- libstdc++ hashing (std::hash<std::string> -> _Hash_bytes = MurmurHash64A variant; prime rehash policy) ----------------
+_M64 = (1 << 64) - 1
+def m_hash_bytes(it, a):
+    ptr, ln, seed = a
+    if is_sym(ln) or is_sym(seed): raise Unsupported('_Hash_bytes with symbolic length/seed')
+    b = rd(it, ptr, ln)
+    if any(is_sym(x) for x in b): raise Unsupported('_Hash_bytes over symbolic bytes')
+    b = [x & 0xff for x in b]
+    mul = ((0xc6a4a793 << 32) + 0x5bd1e995) & _M64
+    mix = lambda v: (v ^ (v >> 47)) & _M64
+    h = (seed ^ ((ln * mul) & _M64)) & _M64
+    al = ln & ~7
+    for i in range(0, al, 8):
+        w = int.from_bytes(bytes(b[i:i + 8]), 'little')
+        d = (mix((w * mul) & _M64) * mul) & _M64
+        h ^= d; h = (h * mul) & _M64
+    if ln & 7:
+        w = int.from_bytes(bytes(b[al:ln]), 'little')
+        h ^= w; h = (h * mul) & _M64
+    h = (mix(h) * mul) & _M64
+    return mix(h)
+_PRIMES = [2, 3, 5, 7, 11, 13, 17, 19, 23, 29, 31, 37, 41, 43, 47, 53, 59, 61, 67, 71, 73, 79, 83, 89, 97, 103, 109, 113, 127, 137, 139, 149, 157, 167, 179, 193, 199, 211, 227, 241, 257, 277, 293, 313, 337, 359, 383, 409, 439, 467, 503, 541, 577, 619, 661, 709, 761, 823, 887, 953, 1031]
+_FAST_BKT = [2, 2, 2, 3, 5, 5, 7, 7, 11, 11, 11, 11, 13, 13]
+def _ldf32(it, p):
+    v = it.load(p, 4)
+    if isinstance(v, int) and not isinstance(v, bool):
+        import struct
+        return struct.unpack('<f', (v & 0xffffffff).to_bytes(4, 'little'))[0]
+    return float(v)
+def _next_bkt(it, pol, n, mlf):
+    if n < len(_FAST_BKT):
+        if n == 0: return 1
+        it.store(Ptr(pol.obj, pol.off + 8), int(math.floor(_FAST_BKT[n] * mlf)), 8); return _FAST_BKT[n]
+    for q in _PRIMES:
+        if q >= n:
+            it.store(Ptr(pol.obj, pol.off + 8), int(math.floor(q * mlf)), 8); return q
+    raise Unsupported('hash table beyond %d buckets' % _PRIMES[-1])
+def m_need_rehash(it, a):
+    pol, n_bkt, n_elt, n_ins = a
+    mlf = _ldf32(it, Ptr(pol.obj, pol.off)); nr = it.load(Ptr(pol.obj, pol.off + 8), 8)
+    if n_elt + n_ins > nr:
+        min_bkts = max(n_elt + n_ins, 0 if nr else 11) / mlf
+        if min_bkts >= n_bkt:
+            return [1, _next_bkt(it, pol, max(int(math.floor(min_bkts)) + 1, n_bkt * 2), mlf)]
+        it.store(Ptr(pol.obj, pol.off + 8), int(math.floor(n_bkt * mlf)), 8)
+        return [0, 0]
+    return [0, 0]
+def m_next_bkt(it, a):
+    pol, n = a; return _next_bkt(it, pol, n, _ldf32(it, Ptr(pol.obj, pol.off)))
+def m_s_swap(it, a):
+    x, y = a; bx = sget(it, x); by = sget(it, y); sset(it, x, by); sset(it, y, bx); return None
+def m_l_transfer(it, a):
+    # _List_node_base::_M_transfer(first, last): move [first,last) before this
+    this, first, last = a
+    if this == last: return None
+    ld = lambda p, o: it.load(Ptr(p.obj, p.off + o), 8); st = lambda p, o, v: it.store(Ptr(p.obj, p.off + o), v, 8)
+    # remove [first, last) from its old position
+    st(ld(last, 8), 0, this); st(ld(first, 8), 0, last); st(ld(this, 8), 0, first)
+    # splice [first, last) into its new position
+    tmp = ld(this, 8); st(this, 8, ld(last, 8)); st(last, 8, ld(first, 8)); st(first, 8, tmp)
+    return None
+def hashing():
+    return {'@_ZSt11_Hash_bytesPKvmm': m_hash_bytes, '@_ZNKSt8__detail20_Prime_rehash_policy14_M_need_rehashEmmm': m_need_rehash,
+            '@_ZNKSt8__detail20_Prime_rehash_policy11_M_next_bktEm': m_next_bkt,
+            're:^@_ZNSt7__cxx1112basic_stringIcSt11char_traitsIcESaIcEE4swapERS4_': m_s_swap,
+            're:^@_ZNSt8__detail15_List_node_base11_M_transferEPS0_S1_': m_l_transfer}
+
 def all_models():
-    M = base(); M.update(strings()); M.update(lists()); M.update(trees()); M.update(sinks()); return M
+    M = base(); M.update(strings()); M.update(lists()); M.update(trees()); M.update(sinks()); M.update(hashing()); return M
